@@ -200,7 +200,49 @@ func runC07(c *Ctx) error {
 				usedErr[key] = true
 			}
 			variant := "valid"
-			switch c.Rng.IntN(10) {
+			switch c.Rng.IntN(12) {
+			case 10, 11:
+				// a forged frame of a flooded (hop ping) type that claims the source of an earlier accepted ping
+				// and carries exactly its timestamp: the duplicate tolerance of hop pings must not let it skip
+				// the signature check
+				var prev *c07Ping
+				for i := len(sent) - 1; i >= 0; i-- {
+					if sent[i].src == X.IP || sent[i].src == Y.IP {
+						prev = &sent[i]
+						break
+					}
+				}
+				if prev != nil {
+					victim := X
+					if prev.src == Y.IP {
+						victim = Y
+					}
+					fk := c.Rng.IntN(3)
+					spec := pingSpec{from: Z, src: victim.IP, dst: self, msgType: []frame.MessageType{frame.RouterHopPing, frame.RouterHopPingDeprecated}[c.Rng.IntN(2)],
+						seqTime: time.UnixMilli(frameTimeMs(prev.data)), pingID: 77, rawHdr: true, hdrHash: victim.Hash, hdrType: victim.Type, hdrKey: victim.PublicKey}
+					np := c07Ping{src: victim.IP, hop: true, hdrOK: true}
+					switch fk {
+					case 0:
+						spec.pingType = "disconnect"
+						spec.body, _ = cbor.Marshal(&router.DisconnectPingMsg{GoingDown: true})
+						np.kind, np.down, np.desc = 3, true, "disconnect-down=true"
+					case 1:
+						spec.pingType = "hello"
+						np.mtu = 1400
+						spec.body, _ = cbor.Marshal(&router.HelloPingRequest{KeyExchange: kx(), KeyExchangeType: "ECDH-X25519/BLAKE3", MTU: np.mtu})
+						np.kind, np.desc = 0, "hello-request"
+					default:
+						spec.pingType = "error"
+						spec.pingCode = 2
+						spec.body, _ = cbor.Marshal("x")
+						np.kind, np.code, np.desc = 2, 2, "error-2"
+					}
+					if d, err := craftPing(spec); err == nil {
+						np.data = d
+						p = np
+						variant = "forged-hop-ping-with-newest-time"
+					}
+				}
 			case 0, 1: // bit flip in a protected region
 				pos := c.Rng.IntN(len(p.data))
 				for pos == 1 || pos == 2 {
